@@ -309,7 +309,7 @@ class EDXMLParserBase(object):
             raise
 
         for event_type_name in self._ontology.get_event_type_names():
-            self.__num_parsed_event_types[event_type_name] = 0
+            self.__num_parsed_event_types.setdefault(event_type_name, 0)
 
         # Invoke callback to inform about the
         # new ontology.
@@ -452,6 +452,7 @@ class EDXMLParserBase(object):
 
     def _init(self):
         self.__num_parsed_events = 0
+        self.__num_parsed_event_types = {}
         self.__root_element = None
         self.__parsed_initial_ontology = False
         self.__previous_event = None
